@@ -41,7 +41,7 @@ def wr(mode, what, drivers):
             "TLC explores MC_Writer and checks %s; then the drivers %s run the real writer (scripted sinks with short writes / Interrupted) and TLC validates each recorded case against P_%s (verdict) and against Writer.tla with result, delivered bytes, open masters and buffer length of every call bound (conformance statistic)." % (what, drivers, mode),
             WR_NOTE, "6 " + mode)
 CLAIMED.update({
- "C01": wr("C01", "Inv_C01 (at every successful flush the strict parse of the output - by the reader design - is exactly the flat sequence of accepted tags) for every call sequence", "rt (random trees over S3 and random specifications with ids of 1-8 bytes; Start/End, Full, unknown size, explicit widths, raw tags; payload lengths 0,126-128,16382-16384; 64-bit value lattice; floats by bit pattern; strict read-back with the real iterator)"),
+ "C01": wr("C01", "Inv_C01 (at every successful flush the strict parse of the output - by the reader design - is exactly the flat sequence of accepted tags) for every call sequence", "rt (random trees over S3 and random specifications with ids of 1-8 bytes; Start/End, Full, unknown size, explicit widths, raw tags; payload lengths 0,126-128,16382-16384; 64-bit value lattice; floats by bit pattern (special values, mantissas of <= 24 bits with exponents inside, on the edge of and outside the single-precision range, single-representable values, random patterns); strict read-back with the real iterator)"),
  "C02": ("TLA+ relation P_C01!Fixpoint checked by TLC on the bounded reader model (Inv_C02 of MC_Reader: every accepted stream re-written through the writer design reads back equal) and on recorded read / re-write / read cases of the real code",
          "MC_Reader enumerates every byte stream <= 4/5 bytes over the 12-symbol alphabet; for each one the strict design accepts from a root element, the writer design must accept its tags and the re-written bytes must parse to the same tags (Inv_C02). The driver fix reads independently encoded streams with non-canonical encodings (padded and zero-length integers, 4-byte floats, wide / unknown size fields) and mutated streams with the real strict reader, writes the tags back with the real writer and reads again; TLC evaluates the relation per case and Writer.tla conformance per call.",
          WR_NOTE, "6 C02"),
